@@ -742,6 +742,107 @@ def b7_equivalence_steps(ctx) -> None:
         ctx.violation("B7", f, f"for a domain rule without children map_rec must return the minimum object of {r2}", construct=f"{PTM}.map_rec leaf")
 
 
+def b7b_min_object_of_the_rule_class(ctx) -> None:
+    """The image of a leaf is an object of the class the codomain rule is *for*
+    (rule.comb_class): when that rule is an equivalence path its child is another class, and
+    an object of the child is not an object of the class on top of the path."""
+    P = ctx.P
+    m = P.need_method(PTM, "_min_object", own=True)
+    f = m.node
+    ctx.analysed(m)
+    rp = [p for p in m.params() if p not in ("self", "cls")]
+    if not rp:
+        raise AnalysisError("B7: _min_object(rule) expected")
+    r = rp[0]
+    gens = [c for c in walk_local(f) if isinstance(c, ast.Call) and isinstance(c.func, ast.Attribute) and c.func.attr == "objects_of_size"]
+    if not gens:
+        raise AnalysisError("B7: _min_object no longer generates the object with objects_of_size")
+    for c in gens:
+        src = D.expanded(f, c.func.value)
+        if norm(src) == f"{r}.comb_class":
+            ctx.ok("B7", "the minimum object is generated from the class of the matched rule itself")
+        elif any(isinstance(x, ast.Attribute) and x.attr == "children" for x in ast.walk(src)):
+            ctx.violation("B7", c, f"_min_object generates the object from `{norm(src)[:60]}`; the image must be an object of `{r}.comb_class`, and for an equivalence path "
+                          "the child is another class (the steps of the path transform objects): the map is no longer onto the codomain")
+        else:
+            raise AnalysisError(f"B7: _min_object generates from `{norm(src)[:50]}`")
+
+
+def b17_representatives_read_after_expansion(ctx) -> None:
+    """ParallelInfo expands its searcher and then reads the universe.  A representative
+    (`equivdb[label]`) names a class only until the next merge: one that is stored before an
+    expansion is stale as soon as the root's class is merged into one with another
+    representative, and is then never a key of the pruned rules."""
+    P = ctx.P
+    cls = P.need_class("ParallelInfo")
+    expanding: Set[str] = set()
+    changed = True
+    while changed:
+        changed = False
+        for mm in cls.methods.values():
+            if mm.name in expanding:
+                continue
+            for c in walk_local(mm.node):
+                if isinstance(c, ast.Call) and isinstance(c.func, ast.Attribute) and (c.func.attr in ("do_level", "auto_search", "_expand_classes_for", "_expand_class_with_strategy")
+                                                                                      or (isinstance(c.func.value, ast.Name) and c.func.value.id == "self" and c.func.attr in expanding)):
+                    expanding.add(mm.name)
+                    changed = True
+                    break
+    if not expanding:
+        raise AnalysisError("B17: ParallelInfo no longer expands its searcher")
+    n = 0
+    for mm in cls.methods.values():
+        f = mm.node
+        exp_calls = [c for c in walk_local(f) if isinstance(c, ast.Call) and isinstance(c.func, ast.Attribute) and isinstance(c.func.value, ast.Name) and c.func.value.id == "self"
+                     and c.func.attr in expanding]
+        for st in walk_local(f):
+            tv = PT.assign_value(st)
+            if tv[0] is None or tv[1] is None or not is_self_attr(tv[0]):
+                continue
+            v = D.expanded(f, tv[1])
+            if not any(isinstance(x, ast.Subscript) and isinstance(x.value, ast.Attribute) and x.value.attr == "equivdb" for x in ast.walk(v)):
+                continue
+            n += 1
+            late = [c for c in exp_calls if c.lineno > st.lineno]
+            if late:
+                ctx.violation("B17", st, f"{mm.qualname} stores the representative `{norm(v)[:60]}` and expands afterwards (`{norm(late[0])[:40]}`): a merge made by the expansion "
+                              "leaves the stored label naming no class of the pruned rules, so the root is never found (no specification, or no end of the expansion)")
+            else:
+                ctx.ok("B17", f"{mm.qualname}: the representative kept in self.{tv[0].attr} is read after the expansion")
+    if n < 1:
+        ctx.floor("B17", 99)
+
+
+def b18_first_complete_matching_ends_the_backtracking(ctx) -> None:
+    """The first search records *one* child matching per rule pair (there is one slot per
+    pair) and leaves the backtracking loop at once.  Going on after a complete matching runs
+    the recursion on further child pairs while the pair in hand is still an optimistic
+    ancestor: the table gets pairs in which one label is matched with several labels of the
+    other side, and the second search, which follows the table, no longer assigns one partner
+    per label."""
+    P = ctx.P
+    m = P.need_method("ParallelSpecFinder", "_find", own=True)
+    f = m.node
+    ctx.analysed(m)
+    stores = [st for st in walk_local(f) if isinstance(st, ast.Assign) and len(st.targets) == 1 and isinstance(st.targets[0], ast.Subscript)
+              and isinstance(st.targets[0].value, ast.Subscript) and norm(st.targets[0].value.value) == "matching_info"]
+    if not stores:
+        raise AnalysisError("B18: _find no longer records a complete child matching in matching_info[pair][children]")
+    for st in stores:
+        loops = [l for l in C.enclosing_loops(f, st) if isinstance(l, ast.While)]
+        if not loops:
+            raise AnalysisError("B18: the matching is no longer recorded inside the backtracking loop")
+        blk = C.block_path(f, st)[-1][2]
+        i = [j for j, x in enumerate(blk) if x is st][0]
+        nxt = blk[i + 1] if i + 1 < len(blk) else None
+        if isinstance(nxt, ast.Break) or isinstance(nxt, ast.Return):
+            ctx.ok("B18", "the backtracking over the children stops at the first complete matching of a rule pair")
+        else:
+            ctx.violation("B18", st, "after a complete child matching is recorded the backtracking goes on (" + (type(nxt).__name__.lower() if nxt is not None else "falls through")
+                          + "): there is one slot per rule pair, so nothing more is collected, but the extra recursion fills the table with pairs that match one label with "
+                          "several labels of the other side -- the second search then builds two specifications that do not correspond")
+
+
 # ------------------------------------------------------------------ B8 two-sided acceptance in the second search
 def b8_two_sided_acceptance(ctx) -> None:
     """The second search of the parallel finder assigns one rule per label on *both* sides.  A
